@@ -103,18 +103,28 @@ def run(ctx):
     ctx.rule = RULE
     rng = ctx.rng
     n = ctx.n(700, 100000)
-    for i in range(n):
+    sweep = list(range(0, 70)) if ctx.shard == 0 else []
+    for i in range(n + len(sweep)):
         ik = rng.choice(KINDS)
         sk = rng.choice(KINDS)
         key_name = gen.simple_name(rng, 0, 4) + [rc.comp(8, b'KEY'), rc.comp(8, gen.rand_bytes(rng, rng.choice([1, 4, 8])))]
+        if i >= n:
+            # boundary sweep: small certificates (Ed25519 subject key) issued by an ECDSA key, sized so that the Data
+            # length crosses 253 exactly where the DER signature is shorter than the reserved space
+            ik, sk = 'ecdsa256', 'ed25519'
+            key_name = [rc.comp(8, b'p' * sweep[i - n]), rc.comp(8, b'KEY'), rc.comp(8, b'\x01')]
         if rng.random() < 0.1:
             key_name = gen.simple_name(rng, 1, 6)
         locator = gen.simple_name(rng, 1, 3) + [rc.comp(8, b'KEY'), rc.comp(8, b'\x01'), rc.comp(8, b'self'), rc.comp(0x36, b'\x01')]
+        if i >= n:
+            locator = [rc.comp(8, b'i'), rc.comp(8, b'KEY'), rc.comp(8, b'\x01')]
         signer, sinfo = pkts.make_signer(rng, ik, locator)
         _, subj = pkts.make_signer(rng, sk, key_name)
         pub = subj['pub'] if rng.random() < 0.9 else gen.rand_bytes(rng, rng.choice([0, 1, 91, 300]))
         form, fl = pkts.name_form(rng, key_name)
         which = rng.choice(['derive', 'derive', 'derive', 'self', 'req'])
+        if i >= n:
+            which = ['derive', 'self', 'req'][i % 3]
         w = {'fn': which, 'issuer_key': ik, 'subject_key': sk, 'key_name': [c.hex() for c in key_name], 'form': fl}
         t0 = int(time.time() * 1000)
         try:
